@@ -12,6 +12,7 @@ ir = '/verif/.cache/dbg_ir.json'
 os.makedirs('/verif/.cache', exist_ok=True)
 print('frontend', round(driver.frontend(hs, ir), 2))
 E = driver.make_engine(json.load(open(ir)), h, driver.compile_known(driver.load_known(prop), h.name))
+if os.environ.get('PANICS'): E.panic_mode = 'obligation'
 st = E.explore(h.entry, limit=limit)
 print({k: st[k] for k in ('paths', 'queries', 'solver_s', 'instrs', 'wall_s', 'leftover', 'unknown')}, 'completed', st.get('completed'))
 print('reached', st['reached'])
